@@ -1,11 +1,13 @@
 """Helpers shared by rule modules: guard tables in normal form, table comparison."""
 from bpsa.normal import canon, accept_atoms, bool_atom, atom_vars, variant_atom
 from bpsa.terms import short, walk
+import copy
 
 
-def path_ctx(ctx, body, g_bb, guard_bbs):
+def path_ctx(ctx, body, g_bb, guard_bbs, xf=None):
     """context of a block: non-guard dominating branch conditions and loop quantifiers, as a sorted tuple of atoms"""
     out = []
+    xf = xf or (lambda t: t)
     lps = ctx.loops(body)
     drivers = {getattr(lp, 'driver_switch', None): lp for lp in lps.values() if lp.driver_bb is not None}
     for (sw, cond, arms, targets) in ctx.path_conditions(body, g_bb):
@@ -13,8 +15,9 @@ def path_ctx(ctx, body, g_bb, guard_bbs):
             continue
         if sw in drivers:
             if all(t in drivers[sw].blocks for t in targets):
-                out.append(('forall', canon(drivers[sw].iter_term)))
+                out.append(('forall', canon(xf(drivers[sw].iter_term))))
             continue
+        cond = xf(cond)
         if cond.tag == 'discr':
             out.append(variant_atom(cond[1], ctx.discr_type(body, body.block[sw]['term']['discr']), arms))
         elif set(arms) <= {'0', 'otherwise'} and len(arms) == 1:
@@ -52,15 +55,118 @@ def effectiveness(ctx, body, g):
     return res
 
 
-def guard_table(ctx, body):
-    """[{guard, ctx, atoms, eff}] for every guard of the body"""
+def _with_cond(g, cond, bb=None):
+    g2 = copy.copy(g)
+    g2.cond = cond
+    if bb is not None:
+        g2.inner = g
+        g2.bb = bb
+    return g2
+
+
+ITER_CONSUMERS = {'try_for_each': 'try', 'all': 'all', 'any': 'any'}
+
+
+def _combine_eff(a, b):
+    if 'bypass' in (a, b):
+        return 'bypass'
+    if 'forall' in (a, b):
+        return 'forall'
+    return 'dom'
+
+
+def _closure_of(t):
+    if t.tag == 'mut':
+        t = t[1]
+    return t if t.tag == 'closure' else None
+
+
+def _rows(ctx, body, xf, octx, oeff, site_bb, depth, rows, parent):
+    """guard rows of `body` with every term passed through xf (parameter substitution + helper expansion), prefixed by the
+    context / effectiveness of the place the body is called from; recursively spliced with the rows of crate-local helpers,
+    of closures consumed by try_for_each / all / any, and of map closures collected into a Result"""
+    eng = ctx.eng
     gs = ctx.guards(body)
     gbbs = {g.bb for g in gs}
-    rows = []
     for g in gs:
-        rows.append({'guard': g, 'ctx': path_ctx(ctx, body, g.bb, gbbs), 'atoms': accept_atoms(g),
-                     'eff': effectiveness(ctx, body, g)})
-    return rows
+        c0 = g.cond
+        pc = tuple(sorted(set(octx) | set(path_ctx(ctx, body, g.bb, gbbs, xf)), key=repr))
+        eff = _combine_eff(oeff, effectiveness(ctx, body, g))
+        ge = _with_cond(g, xf(c0), site_bb)
+        row = {'guard': ge, 'ctx': pc, 'atoms': accept_atoms(ge), 'eff': eff, 'parent': parent, 'spliced': parent is not None}
+        rows.append(row)
+        me = len(rows) - 1
+        if depth <= 0:
+            continue
+        sb = site_bb if site_bb is not None else g.bb
+        x = c0[1] if c0.tag == 'discr' else c0
+        neg = False
+        while x.tag == 'unop' and x[1] == 'Not':
+            x, neg = x[2], not neg
+        if x.tag != 'call':
+            continue
+        name = x[1]
+        last = name.split('::')[-1]
+        if name in ctx.facts.fn and not ctx.facts.fn[name].impl_trait and c0.tag == 'discr':
+            callee = ctx.facts.fn[name]
+            env = {('param', callee.key, i + 1): a for i, a in enumerate(x[2])}
+            site = x[3]
+            xf2 = (lambda env, site: (lambda t: xf(eng.subst(t, env, site))))(env, site)
+            _rows(ctx, callee, xf2, pc, eff, sb, depth - 1, rows, me)
+        elif last in ITER_CONSUMERS and len(x[2]) == 2 and _closure_of(x[2][1]) is not None:
+            it, cl = x[2][0], _closure_of(x[2][1])
+            cb = ctx.facts.fn.get(cl[1])
+            if cb is None:
+                continue
+            from bpsa.terms import mk_elem
+            el = mk_elem(eng, it)
+            env = {('param', cb.key, 2): el}
+            for j, cap in enumerate(cl[2]):
+                env[('upvar', cb.key, j)] = cap
+            xf2 = (lambda env: (lambda t: xf(eng.subst(t, env, ()))))(env)
+            pc2 = tuple(sorted(set(pc) | {('forall', canon(xf(it)))}, key=repr))
+            kind = ITER_CONSUMERS[last]
+            if kind == 'try' and c0.tag == 'discr':
+                _rows(ctx, cb, xf2, pc2, _combine_eff(eff, 'forall'), sb, depth - 1, rows, me)
+            elif kind in ('all', 'any') and c0.tag != 'discr':
+                # accept-condition as a universally quantified statement about one element, when it is one
+                accept_true = g.reject_when_false() != neg
+                accept_false = g.reject_when_true() != neg
+                rt = xf2(eng.return_term(cb))
+                if kind == 'any' and accept_false:
+                    atoms = bool_atom(rt, positive=False)
+                elif kind == 'all' and accept_true:
+                    atoms = bool_atom(rt, positive=True)
+                else:
+                    atoms = None
+                if atoms and not any(a[0] == 'unknown' for a in atoms):
+                    rows.append({'guard': _with_cond(g, rt, sb), 'ctx': pc2, 'atoms': atoms, 'eff': _combine_eff(eff, 'forall'), 'parent': me, 'spliced': True})
+        elif last == 'collect' and c0.tag == 'discr' and x[2] and x[2][0].tag == 'map' and _closure_of(x[2][0][2]) is not None:
+            it, cl = x[2][0][1], _closure_of(x[2][0][2])
+            cb = ctx.facts.fn.get(cl[1])
+            if cb is None:
+                continue
+            from bpsa.terms import mk_elem
+            env = {('param', cb.key, 2): mk_elem(eng, it)}
+            for j, cap in enumerate(cl[2]):
+                env[('upvar', cb.key, j)] = cap
+            xf2 = (lambda env: (lambda t: xf(eng.subst(t, env, ()))))(env)
+            pc2 = tuple(sorted(set(pc) | {('forall', canon(xf(it)))}, key=repr))
+            _rows(ctx, cb, xf2, pc2, _combine_eff(eff, 'forall'), sb, depth - 1, rows, me)
+
+
+def guard_table(ctx, body, deep=False, expand=False):
+    """[{guard, ctx, atoms, eff, parent, spliced}] for every guard of the body.
+    deep:   the guards of crate-local helpers / closures whose success a guard demands are spliced in (rows with spliced=True,
+            terms rewritten into the caller's vocabulary)
+    expand: helper calls inside conditions are replaced by what they return (helpers are transparent)"""
+    cache = ctx.__dict__.setdefault('_gt', {})
+    k = (body.key, deep, expand)
+    if k not in cache:
+        rows = []
+        _rows(ctx, body, (lambda t: ctx.eng.expand(t)) if expand else (lambda t: t), (), 'dom', None, 2 if deep else 0, rows, None)
+        cache[k] = rows
+    return cache[k]
 
 
 def fmt_atom(a):
@@ -70,7 +176,7 @@ def fmt_atom(a):
 def compare_table(ctx, rule, fnkey, body, expected, allowed_extra=()):
     """expected: list of (ctx atoms tuple, atom).  Reports one obligation per expected atom and one per extra."""
     rep = ctx.rep
-    rows = guard_table(ctx, body)
+    rows = guard_table(ctx, body, deep=True)
     actual = []
     for r in rows:
         for a in r['atoms']:
@@ -114,8 +220,31 @@ def compare_table(ctx, rule, fnkey, body, expected, allowed_extra=()):
         else:
             rep.violation(rule, key, 'expected accept-condition %s under %s is not enforced by any guard of %s' % (
                 fmt_atom(eatom), list(ectx), body.path), ctx.where(body))
+    used_rows = {id(actual[i][2]) for i in used}
+    tabled = set()
+    for (c, a, r) in actual:
+        if (c, a) in allowed_extra or a in [x for _, x in allowed_extra if _ is None]:
+            tabled.add(id(r))
+    for r in rows:
+        # the guards inside a tabled helper call are covered by the table entry of the call
+        q = r
+        while q['parent'] is not None:
+            q = rows[q['parent']]
+            if id(q) in tabled:
+                used_rows.add(id(r))
+                break
+    changed = True
+    while changed:
+        # a spliced row that satisfied an expectation accounts for the call-site row it refines, and vice versa
+        changed = False
+        for r in rows:
+            if r['parent'] is not None:
+                pr = rows[r['parent']]
+                if (id(r) in used_rows) != (id(pr) in used_rows):
+                    used_rows |= {id(r), id(pr)}
+                    changed = True
     for i, (c, a, r) in enumerate(actual):
-        if i in used:
+        if i in used or id(r) in used_rows:
             continue
         key = '%s/%s/extra/%s' % (rule, fnkey, fmt_atom((c, a)))
         if (c, a) in allowed_extra or a in [x for _, x in allowed_extra if _ is None]:
